@@ -1026,7 +1026,7 @@ def op_missing_enumerator(tree, facts, rng):
         for m, ctx, ck, chain in if_sites(o):
             for k, c in enumerate(chain):
                 pos = 'first' if k == 0 else 'or'
-                out.append(mk('missing-enumerator', f'{ck}-{pos}', o, facts.site(o, ctx_name(ctx), f'{ck}-cond-{pos}({c["op"]})'),
+                out.append(mk('missing-enumerator', f'{ck}-{pos}@{ctx_name(ctx)}', o, facts.site(o, ctx_name(ctx), f'{ck}-cond-{pos}({c["op"]})'),
                               [rep_tok(f, c['enum_tok'], 'VERIF_MISSING_ENUMERATOR')],
                               f'enumerator {c["enum"]} of `{c["var"]} {c["op"]} {c["enum"]}` -> VERIF_MISSING_ENUMERATOR'))
     return out
@@ -1042,7 +1042,7 @@ def op_operator(tree, facts, rng, want):
             if t is None:
                 continue
             if want == 'enum-and' and t['kind'] == 'enum':
-                out.append(mk('enum-and', ck, o, facts.site(o, ctx_name(ctx), f'{ck}({chain[0]["op"]}x{len(chain)})'),
+                out.append(mk('enum-and', f'{ck}@{ctx_name(ctx)}', o, facts.site(o, ctx_name(ctx), f'{ck}({chain[0]["op"]}x{len(chain)})'),
                               [rep_tok(f, c['op_tok'], '&') for c in chain],
                               f'`{chain[0]["var"]} {chain[0]["op"]} ...` on enum {t["name"]} -> &'))
             if want == 'flag-equals' and t['kind'] == 'flag':
@@ -1050,7 +1050,7 @@ def op_operator(tree, facts, rng, want):
                 if len(chain) == 1 and not m['elifs']:
                     news.append('!=')
                 for new in news:
-                    out.append(mk('flag-equals', f'{ck}{new}', o, facts.site(o, ctx_name(ctx), f'{ck}({new}x{len(chain)})'),
+                    out.append(mk('flag-equals', f'{ck}{new}@{ctx_name(ctx)}', o, facts.site(o, ctx_name(ctx), f'{ck}({new}x{len(chain)})'),
                                   [rep_tok(f, c['op_tok'], new) for c in chain],
                                   f'`{chain[0]["var"]} & ...` on flag {t["name"]} -> {new}'))
     return out
